@@ -51,6 +51,10 @@ CHECKS = {
          "bounded-exhaustive enumeration of hostile syscall arguments (one operation per run) and of SIGKILL instants at every tracer step, on a real tracer and tracee; oracle: the result is a verdict about the program, never Runner Error, and the run returns",
          "Every traced path syscall (25) x pointer kind for every path argument {NULL, unmapped, kernel half, odd, short string, 4095/4096/4097/8192 bytes without NUL, string ending exactly at / crossing into a PROT_NONE page} x dirfd encoding {AT_FDCWD, 64-bit garbage, (thorough) -1, closed, zero-extended AT_FDCWD} x {soft-ban-all, allow-all policy}; syscall numbers unknown / negative / x32 / above 2^32; unreadable, short and NULL open_how; and a fork+thread program in which the main process or the most recently reported task is SIGKILLed at the k-th tracer step for every k (each Debug call of the tracer loop, including 'before PTRACE_SETOPTIONS' and 'between trap and skip').",
          "Kill instants are exhaustive at tracer-step granularity, not instruction granularity. The tracee is the freestanding sysrun probe."),
+ "C16": ("fault_enumeration",
+         "crash-point enumeration: the controller runs in a helper process that parks itself at a chosen verif gate (host or container named point, callback, tracer step) and is SIGKILLed exactly there; the container init and every process of the program's tree are then watched",
+         "Container: operation in {ping, open, reset, execve with sync before / after exec of a process tree with a signal-ignoring child, a double-forked daemon, a grandchild and a HUP/TERM-ignoring child} x crash point in {idle after build, host held at send-pre / send-post / recv, inside the callback, send-pre(ok), select, while the program runs, container held at dispatch / started / select / reply withheld, init busy with a long init command during build}. Tracer: the tracing process is SIGKILLed at every tracer step (each Debug call, incl. before PTRACE_SETOPTIONS) of a run of the same kind of tree. Oracle: init and every nonce-carrying process are gone within 10 s with no further action.",
+         "A launcher child that has not exec'ed the target is not counted as an untrusted process. Uniformly random kill instants are sampling and are replaced by the gate instants."),
  "C18": ("exploration",
          "bounded-exhaustive enumeration of entry sets x query paths and of counter call histories on the exported filehandler API, against an independent definition of coverage",
          "Every entry set of size <=2 (thorough: <=3) over {exact, d/, d/*} x all paths to depth 3 (thorough: 4) is queried with every path incl. '/' and the empty path; every (Writable,Readable,Statable,SoftBan) 4-tuple of sets of size <=1 at depth 2 is checked through Handler.CheckRead/Write/Stat; a real symlink forest covers the raw-or-real clause; every counter table of <=2 names x counts {-1..3} is driven with every call sequence up to length 6 (7). Complete enumeration, no sampling.",
